@@ -4,7 +4,9 @@
 //! hand from the format rules (8-byte little-endian length prefixes, 1-byte variant tags, fields in declaration
 //! order, fixed-size leaves): ["leaf", n] | ["len", k, [children]] | ["seq", [children]] | ["tag", i, [children]].
 //! Codec.tla recomputes the size and the offsets of every prefix / tag from the tree alone and compares.
-use agdb::{AgdbSerialize, DbId, DbKeyValue, DbSerialize, DbValue, QueryId};
+use agdb::{AgdbSerialize, Comparison, CountComparison, DbF64, DbId, DbKeyOrder, DbKeyValue, DbSerialize, DbValue, InsertAliasesQuery, InsertEdgesQuery, InsertIndexQuery,
+           InsertNodesQuery, InsertValuesQuery, KeyValueComparison, QueryCondition, QueryConditionData, QueryConditionLogic, QueryConditionModifier, QueryId, QueryIds,
+           QueryValues, RemoveQuery, SearchQuery, SearchQueryAlgorithm, SelectValuesQuery};
 use serde_json::{Value, json};
 use std::net::{IpAddr, SocketAddr};
 use std::path::PathBuf;
@@ -64,6 +66,63 @@ fn emit_opaque<T: AgdbSerialize + PartialEq>(trace: &mut Trace, name: &str, v: &
     emit(trace, name, v, t_leaf(n));
 }
 
+
+// ---- query types (the derive macro on the crate's own enums / structs: opaque values, size == length and round trip)
+fn dbv(r: &mut Rng) -> DbValue {
+    match r.below(10) {
+        0 => DbValue::I64(r.next() as i64), 1 => DbValue::U64(r.next()),
+        2 => DbValue::F64(DbF64::from(*r.pick(&[0.0, -0.0, 2.5, f64::NAN, f64::NEG_INFINITY, f64::MIN_POSITIVE]))),
+        3 => DbValue::String(rs(r)), 4 => DbValue::Bytes((0..r.below(20)).map(|_| r.below(256) as u8).collect()),
+        5 => DbValue::VecI64((0..r.below(4)).map(|_| r.next() as i64).collect()), 6 => DbValue::VecU64((0..r.below(4)).map(|_| r.next()).collect()),
+        7 => DbValue::VecF64((0..r.below(4)).map(|_| DbF64::from(r.below(9) as f64 / 4.0 - 1.0)).collect()),
+        8 => DbValue::VecString((0..r.below(3)).map(|_| rs(r)).collect()), _ => DbValue::String(String::new()),
+    }
+}
+fn qid(r: &mut Rng) -> QueryId { if r.chance(1, 2) { QueryId::Id(DbId(r.next() as i64 % 1000)) } else { QueryId::Alias(rs(r)) } }
+fn count_cmp(r: &mut Rng) -> CountComparison {
+    let n = r.below(5);
+    match r.below(6) { 0 => CountComparison::Equal(n), 1 => CountComparison::GreaterThan(n), 2 => CountComparison::GreaterThanOrEqual(n),
+                       3 => CountComparison::LessThan(n), 4 => CountComparison::LessThanOrEqual(n), _ => CountComparison::NotEqual(n) }
+}
+fn cmp(r: &mut Rng) -> Comparison {
+    let v = dbv(r);
+    match r.below(8) { 0 => Comparison::Equal(v), 1 => Comparison::GreaterThan(v), 2 => Comparison::GreaterThanOrEqual(v), 3 => Comparison::LessThan(v),
+                       4 => Comparison::LessThanOrEqual(v), 5 => Comparison::NotEqual(v), 6 => Comparison::Contains(v), _ => Comparison::StartsWith(v) }
+}
+fn cond(r: &mut Rng, depth: u64) -> QueryCondition {
+    let data = match r.below(if depth > 0 { 10 } else { 9 }) {
+        0 => QueryConditionData::Distance(count_cmp(r)), 1 => QueryConditionData::Edge, 2 => QueryConditionData::EdgeCount(count_cmp(r)),
+        3 => QueryConditionData::EdgeCountFrom(count_cmp(r)), 4 => QueryConditionData::EdgeCountTo(count_cmp(r)),
+        5 => QueryConditionData::Ids((0..r.below(3)).map(|_| qid(r)).collect()), 6 => QueryConditionData::KeyValue(KeyValueComparison { key: dbv(r), value: cmp(r) }),
+        7 => QueryConditionData::Keys((0..r.below(3)).map(|_| dbv(r)).collect()), 8 => QueryConditionData::Node,
+        _ => QueryConditionData::Where((0..r.below(3)).map(|_| cond(r, depth - 1)).collect()),
+    };
+    QueryCondition { logic: if r.chance(1, 2) { QueryConditionLogic::And } else { QueryConditionLogic::Or },
+                     modifier: *r.pick(&[QueryConditionModifier::None, QueryConditionModifier::Beyond, QueryConditionModifier::Not, QueryConditionModifier::NotBeyond]), data }
+}
+fn search(r: &mut Rng) -> SearchQuery {
+    SearchQuery { algorithm: *r.pick(&[SearchQueryAlgorithm::BreadthFirst, SearchQueryAlgorithm::DepthFirst, SearchQueryAlgorithm::Index, SearchQueryAlgorithm::Elements]),
+                  origin: qid(r), destination: qid(r), limit: r.below(4), offset: r.below(4),
+                  order_by: (0..r.below(3)).map(|_| if r.chance(1, 2) { DbKeyOrder::Asc(dbv(r)) } else { DbKeyOrder::Desc(dbv(r)) }).collect(),
+                  conditions: (0..r.below(4)).map(|_| cond(r, 2)).collect() }
+}
+fn qids(r: &mut Rng) -> QueryIds { if r.chance(2, 3) { QueryIds::Ids((0..r.below(4)).map(|_| qid(r)).collect()) } else { QueryIds::Search(search(r)) } }
+fn kvs(r: &mut Rng) -> Vec<DbKeyValue> { (0..r.below(3)).map(|_| DbKeyValue { key: dbv(r), value: dbv(r) }).collect() }
+fn qvals(r: &mut Rng) -> QueryValues { if r.chance(1, 2) { QueryValues::Single(kvs(r)) } else { QueryValues::Multi((0..r.below(3)).map(|_| kvs(r)).collect()) } }
+fn emit_query(trace: &mut Trace, r: &mut Rng) {
+    match r.below(9) {
+        0 => emit_opaque(trace, "SearchQuery", &search(r)),
+        1 => emit_opaque(trace, "InsertValuesQuery", &InsertValuesQuery { ids: qids(r), values: qvals(r) }),
+        2 => emit_opaque(trace, "InsertNodesQuery", &InsertNodesQuery { count: r.below(5), values: qvals(r), aliases: (0..r.below(3)).map(|_| rs(r)).collect(), ids: qids(r) }),
+        3 => emit_opaque(trace, "InsertEdgesQuery", &InsertEdgesQuery { from: qids(r), to: qids(r), ids: qids(r), values: qvals(r), each: r.chance(1, 2) }),
+        4 => emit_opaque(trace, "SelectValuesQuery", &SelectValuesQuery { keys: (0..r.below(3)).map(|_| dbv(r)).collect(), ids: qids(r) }),
+        5 => emit_opaque(trace, "RemoveQuery", &RemoveQuery(qids(r))),
+        6 => emit_opaque(trace, "InsertAliasesQuery", &InsertAliasesQuery { ids: qids(r), aliases: (0..r.below(3)).map(|_| rs(r)).collect() }),
+        7 => emit_opaque(trace, "InsertIndexQuery", &InsertIndexQuery(dbv(r))),
+        _ => emit_opaque(trace, "QueryCondition", &cond(r, 2)),
+    }
+}
+
 pub fn run(args: &Args) {
     let seed = args.num("seed", 1);
     let first = args.num("first", 0);
@@ -81,7 +140,7 @@ pub fn run(args: &Args) {
         for _ in 0..ops {
             n += 1;
             let r = &mut rng;
-            match r.below(25) {
+            match r.below(30) {
                 0 => { let v: u64 = *r.pick(&[0, 1, u64::MAX, 1 << 63]) ^ if r.chance(1, 2) { r.next() } else { 0 }; emit(&mut trace, "u64", &v, t_u64()); }
                 1 => { let v: i64 = *r.pick(&[0, -1, i64::MIN, i64::MAX]) ^ if r.chance(1, 2) { r.next() as i64 } else { 0 }; emit(&mut trace, "i64", &v, t_u64()); }
                 2 => { let v: f64 = *r.pick(&[0.0, -0.0, 1.5, f64::MAX, f64::MIN_POSITIVE, f64::INFINITY, f64::NEG_INFINITY]); emit(&mut trace, "f64", &v, t_u64()); }
@@ -117,6 +176,10 @@ pub fn run(args: &Args) {
                                           En::Nested(nm) => json!(["tag", 3, [t_named(nm)]]), En::Flag(_) => json!(["tag", 4, [t_leaf(1)]]) };
                     emit(&mut trace, "En", &v, tree);
                 }
+                25 | 26 | 27 => emit_query(&mut trace, r),
+                28 => { let v = dbv(r); emit_opaque(&mut trace, "DbValue", &v); }
+                29 => { let v: SocketAddr = if r.chance(1, 2) { format!("[2001:db8::{:x}]:{}", r.below(65536), r.below(65536)).parse().unwrap() } else { format!("[::ffff:10.0.{}.{}]:{}", r.below(256), r.below(256), r.below(65536)).parse().unwrap() };
+                        let s = v.to_string(); emit(&mut trace, "SocketAddr", &v, t_str(&s)); }
                 20 => { let v: DbValue = match r.below(6) { 0 => DbValue::I64(r.next() as i64), 1 => DbValue::U64(r.next()), 2 => DbValue::F64((r.below(9) as f64 / 2.0).into()),
                                                             3 => DbValue::String(rs(r)), 4 => DbValue::Bytes((0..r.below(20)).map(|_| r.below(256) as u8).collect()),
                                                             _ => DbValue::VecString((0..r.below(3)).map(|_| rs(r)).collect()) };
